@@ -279,6 +279,26 @@ static void g_unicode(void) {
             judge(1, r != 0, r, SP | CE | SL, 1);
         }
     }
+    /* the source directly behind or directly in front of dest (two halves of one buffer, neighbouring members): the operands do not overlap, the outcome is
+       what it is with the source elsewhere */
+    if (P == 6) for (int si = 0; si < 13; si++) for (int mode = 0; mode < 2; mode++) for (int lay = 0; lay < 2; lay++) {
+        size_t sl = wcslen(NS[si]);
+        for (size_t dmax = 1; dmax <= sl * 3 + 6; dmax++) {
+            char rel[64]; snprintf(rel, sizeof rel, "%s,%s", mode ? "nfc" : "nfd", lay ? "source-directly-in-front-of-dest" : "source-directly-behind-dest");
+            begin("wcsnorm_s", rel, "wcsnorm-adj %d %d %zu %d", si, mode, dmax, lay);
+            const wchar_t *sfar = mksrc(1, NS[si], (sl + 1) * sizeof(wchar_t)); wchar_t *dfar = mkdest(dmax, 4, 0); size_t lf = 0x7777, la = 0x7777; int rf = 0, ra = 0;
+            CALL(rf = wcsnorm(dfar, dmax, sfar, mode, &lf, BOSU)); if (fault) continue;
+            wchar_t keep[64]; memcpy(keep, dfar, (dmax < 64 ? dmax : 64) * sizeof(wchar_t));
+            size_t tot = (dmax + sl + 1) * sizeof(wchar_t); unsigned char *blk = flush(0, tot); memset(slot[0], 0xEE, SLOTSZ - tot);
+            wchar_t *d = (wchar_t *)blk + (lay ? sl + 1 : 0), *sa = (wchar_t *)blk + (lay ? 0 : dmax);
+            for (size_t i = 0; i < dmax; i++) d[i] = 0xAAAAAAAA; memcpy(sa, NS[si], (sl + 1) * sizeof(wchar_t));
+            h_n = 0; fault = 0; cur_dest = (unsigned char *)d; cur_dbytes = dmax * sizeof(wchar_t);
+            CALL(ra = wcsnorm(d, dmax, sa, mode, &la, BOSU)); if (fault) continue;
+            if (verbose) printf("OBS source elsewhere: rc=%d len=%zu   source adjacent: rc=%d len=%zu handler=%d\n", rf, lf, ra, la, h_n);
+            if (rf == 0 && ra != 0) report(ra == 404 ? "disjoint-operands-rejected-as-overlapping" : "fails-with-the-source-next-to-dest");
+            else if (rf == 0 && memcmp(keep, d, (dmax < 64 ? dmax : 64) * sizeof(wchar_t))) report("result-differs-with-the-source-next-to-dest");
+        }
+    }
     /* mode values outside the enumeration (the experimental and the not-compiled-in modes, and plain garbage): whatever the call does with them,
        dest is terminated afterwards and a failure leaves it empty */
     { static const int MODES[] = { 2, 3, 4, 5, 6, 7, 64, -1, (int)0x80000000 };
